@@ -719,6 +719,83 @@ mod net {
                 }
             }
         }
+        // ---- replies: a raw peer answers the clients' bulk calls with a body whose format label or element type is wrong.
+        // Every typed-slice entry point of both clients must refuse it rather than reinterpret the bytes (and accept the
+        // correctly labelled control).
+        {
+            use std::io::{Read, Write};
+            let xs: Vec<f64> = vec![1.5, -2.25, f64::from_bits(0x7ff8_0000_0000_0042), 0.0];
+            let good = Message::builder().body_typed_slice(&xs).build().body;
+            let f32s = Message::builder().body_typed_slice(&[1.0f32, 2.0, 3.0, 4.0]).build().body;
+            let text = b"D 0123456789abcdef0123456789abcdef".to_vec();
+            let mut cases: Vec<(u16, Vec<u8>, bool, &str)> = vec![(1, good.clone(), true, "beve-f64 (control)")];
+            for label in [0u16, 2, 3, 4, 257, 4096, 0xffff] {
+                cases.push((label, good.clone(), false, "f64 typed array under a non-BEVE label"));
+            }
+            cases.push((0, text.clone(), false, "ASCII text under RawBinary"));
+            cases.push((3, text, false, "ASCII text under UTF-8"));
+            cases.push((1, f32s.clone(), false, "f32 typed array where f64 was requested"));
+            cases.push((0, f32s, false, "f32 typed array under RawBinary"));
+            cases.push((2, b"[1.5,-2.25,0,0]".to_vec(), false, "JSON array under JSON"));
+            cases.push((1, good[..good.len() - 3].to_vec(), false, "truncated f64 typed array"));
+            type CallFn<'a> = Box<dyn Fn(std::net::SocketAddr) -> Result<Vec<f64>, String> + 'a>;
+            let rt2 = &rt;
+            let entry_points: Vec<(&str, CallFn)> = vec![
+                ("client.call_typed_slice", Box::new(|a| Client::connect(a).map_err(|e| e.to_string())?.call_typed_slice::<_, f64, f64>("/p", &[1.0]).map_err(|e| e.to_string()))),
+                ("client.call_typed_slice_with_timeout", Box::new(|a| Client::connect(a).map_err(|e| e.to_string())?.call_typed_slice_with_timeout::<_, f64, f64>("/p", &[1.0], std::time::Duration::from_secs(8)).map_err(|e| e.to_string()))),
+                ("client.call_typed_slice_aligned", Box::new(|a| Client::connect(a).map_err(|e| e.to_string())?.call_typed_slice_aligned::<_, f64, f64>("/p", &[1.0]).map_err(|e| e.to_string()))),
+                ("client.call_typed_slice_aligned_with_timeout", Box::new(|a| Client::connect(a).map_err(|e| e.to_string())?.call_typed_slice_aligned_with_timeout::<_, f64, f64>("/p", &[1.0], std::time::Duration::from_secs(8)).map_err(|e| e.to_string()))),
+                ("async_client.call_typed_slice", Box::new(move |a| rt2.block_on(async { AsyncClient::connect(a).await.map_err(|e| e.to_string())?.call_typed_slice::<_, f64, f64>("/p", &[1.0]).await.map_err(|e| e.to_string()) }))),
+                ("async_client.call_typed_slice_with_timeout", Box::new(move |a| rt2.block_on(async { AsyncClient::connect(a).await.map_err(|e| e.to_string())?.call_typed_slice_with_timeout::<_, f64, f64>("/p", &[1.0], std::time::Duration::from_secs(8)).await.map_err(|e| e.to_string()) }))),
+                ("async_client.call_typed_slice_aligned", Box::new(move |a| rt2.block_on(async { AsyncClient::connect(a).await.map_err(|e| e.to_string())?.call_typed_slice_aligned::<_, f64, f64>("/p", &[1.0]).await.map_err(|e| e.to_string()) }))),
+                ("async_client.call_typed_slice_aligned_with_timeout", Box::new(move |a| rt2.block_on(async { AsyncClient::connect(a).await.map_err(|e| e.to_string())?.call_typed_slice_aligned_with_timeout::<_, f64, f64>("/p", &[1.0], std::time::Duration::from_secs(8)).await.map_err(|e| e.to_string()) }))),
+            ];
+            for (who, call) in &entry_points {
+                for (label, body, want_ok, what) in &cases {
+                    let l = match std::net::TcpListener::bind("127.0.0.1:0") {
+                        Ok(l) => l,
+                        Err(e) => {
+                            rep.inconclusive(format!("reply-probe bind: {e}"));
+                            continue;
+                        }
+                    };
+                    let addr = l.local_addr().unwrap();
+                    let (label2, body2) = (*label, body.clone());
+                    let th = std::thread::spawn(move || -> Option<()> {
+                        let (mut s, _) = l.accept().ok()?;
+                        s.set_read_timeout(Some(std::time::Duration::from_secs(8))).ok();
+                        let mut hdr = [0u8; 48];
+                        s.read_exact(&mut hdr).ok()?;
+                        let h = crate::oracle::SpecHeader::decode(&hdr);
+                        if !h.consistent() || h.length > (1 << 20) {
+                            return None;
+                        }
+                        let mut rest = vec![0u8; (h.length - 48) as usize];
+                        s.read_exact(&mut rest).ok()?;
+                        let resp = crate::oracle::frame(crate::oracle::SpecHeader { spec: crate::oracle::SPEC, version: 1, id: h.id, query_format: 1, body_format: label2, ..Default::default() }, &rest[..h.query_length as usize], &body2);
+                        s.write_all(&resp).ok()?;
+                        // keep the socket open until the client is done with it
+                        let mut sink = [0u8; 16];
+                        let _ = s.read(&mut sink);
+                        Some(())
+                    });
+                    let got = call(addr);
+                    let _ = th.join();
+                    rep.eval();
+                    rep.distinct(&("reply-label", *who, *label, *what));
+                    match (&got, *want_ok) {
+                        (Ok(v), true) if bits(v) == bits(&xs) => rep.count("client_reply_controls_decoded", 1),
+                        (Err(_), false) => rep.count("client_wrong_replies_refused", 1),
+                        (Ok(v), false) => rep.violation(
+                            format!("C08:client-accepts-wrong-reply:{who}:label{label}"),
+                            format!("{who}: a reply labelled body_format={label} carrying {what} was decoded as {} f64 values instead of being refused", v.len()),
+                            json!({"entry": who, "label": label, "what": what}),
+                        ),
+                        (other, true) => rep.violation(format!("C08:client-refuses-good-reply:{who}"), format!("{who}: the correctly labelled BEVE f64 reply gave {:?}", other.as_ref().map(|v| v.len())), json!({"entry": who})),
+                    }
+                }
+            }
+        }
         let lg = log.lock().unwrap();
         rep.set("ref_route_invocations", json!(lg.iter().filter(|e| e.0 == "ref").count()));
         rep.set("ref_route_saw_8_aligned_slice", json!(lg.iter().filter(|e| e.0 == "ref" && e.2).count()));
